@@ -19,6 +19,7 @@ import JsonV.Lemmas.EncValue
 import JsonV.Lemmas.EncRaw
 import JsonV.Lemmas.EncOps
 import JsonV.Lemmas.EncValid
+import JsonV.Lemmas.EncUtf8
 import JsonV.Props.C01
 import JsonV.Spec.Names
 import JsonV.Model.Validate
@@ -235,17 +236,18 @@ example : (runToks (Encoder.new { multiline := true, spaceAfterColon := true, in
 /-- **WriteToken succeeds iff appending the token keeps the output a prefix of a valid JSON stream.**
 For every option set, every accepted token history `ts` (from a new encoder) and every token `t`:
 `WriteToken t` succeeds iff `ts ++ [t]` is a viable prefix of a JSON stream (token order, string-only
-names, balanced delimiters, depth ≤ max), a string token passes the UTF-8 check of the options
-(`badUTF8` = AppendQuote saw ill-formed UTF-8 and `AllowInvalidUTF8` is off), and — unless
+names, balanced delimiters, depth ≤ max), a string token is well-formed UTF-8 (`Utf8.valid`, the model of
+`utf8.Valid`) unless `AllowInvalidUTF8` is set, and — unless
 `AllowDuplicateNames` — a member name is not one already used in the innermost open object
 (`Spec.Names.FreshName`: names tracked along the history at specification level, compared as the strings
 the emitted literals denote, i.e. after the U+FFFD substitution). -/
 theorem wt_ok_iff (o : Opts) (ts : List Tok) (e : Enc) (t : Tok) (hlen : ts.length + 1 < 2^61)
     (h : runToks (Encoder.new o) ts = some e) :
     (writeToken e t).2 = none ↔
-      (Viable o.maxDepth ((ts ++ [t]).map kindOf) ∧ badUTF8 o t = false ∧
-        (o.allowDup = false → FreshName o ts t)) :=
-  writeToken_ok_iff o ts e t hlen h
+      (Viable o.maxDepth ((ts ++ [t]).map kindOf) ∧
+        (∀ s, t = .str s → (o.allowInvalidUTF8 = true ∨ Utf8.valid s = true)) ∧
+        (o.allowDup = false → FreshName o ts t)) := by
+  rw [writeToken_ok_iff o ts e t hlen h, JsonV.Lemmas.EncUtf8.badUTF8_iff]
 
 /-- Both outcomes of every clause occur after a non-trivial history `{ "a" 1`:
 a fresh name is accepted, the repeated name, a non-string, ill-formed UTF-8 are rejected; with
@@ -342,9 +344,10 @@ theorem out_render_hist (o : Opts) (cs : List Call) (e : Enc) (hlen : 2 * cs.len
 theorem wt_ok_iff_hist (o : Opts) (cs : List Call) (e : Enc) (t : Tok) (hlen : 2 * cs.length + 1 < 2^61)
     (h : runOps (Encoder.new o) cs = some e) :
     (writeToken e t).2 = none ↔
-      (Viable o.maxDepth ((histToks o cs ++ [t]).map kindOf) ∧ badUTF8 o t = false ∧
-        (o.allowDup = false → FreshName o (histToks o cs) t)) :=
-  writeToken_ops_iff o cs e t hlen h
+      (Viable o.maxDepth ((histToks o cs ++ [t]).map kindOf) ∧
+        (∀ s, t = .str s → (o.allowInvalidUTF8 = true ∨ Utf8.valid s = true)) ∧
+        (o.allowDup = false → FreshName o (histToks o cs) t)) := by
+  rw [writeToken_ops_iff o cs e t hlen h, JsonV.Lemmas.EncUtf8.badUTF8_iff]
 
 /-- **WriteValue succeeds iff the text is a value the validator accepts and is acceptable here**, after any
 accepted script of tokens and raw values. -/
